@@ -48,7 +48,8 @@ PROBES = ["blocks>=4", "blocks>=8", "group_skips_block", "nan_run_crosses_bounda
 
 
 def gen(tape: Tape, tier: str) -> dict:
-    case = gen_scan_case(tape, dtypes=("f8", "f8", "f4", "i8", "i4", "b1", "M8[ns]"))
+    case = gen_scan_case(tape, dtypes=("f8", "f8", "f4", "i8", "i4", "b1", "M8[ns]"), max_n=48 if tier == "thorough" else 30,
+                         max_groups=7 if tier == "thorough" else 5)
     return case
 
 
